@@ -345,6 +345,15 @@ def run(ctx: Ctx) -> None:
     from ..report import SubCtx, run_shared
     run_shared(ctx, c09.run, {"R9.3": ("R14.6", "pragma contents stop at the line end: a discarded token that can contain a newline is tested for one")})
 
+    # ---------------------------------------------------------------- R14.8
+    # "exactly the source tokens": a literal of the expression is one token of the value.  A token
+    # rule that takes only a prefix of a literal (an alternation that prefers the short suffix, a
+    # rule shadowed by an earlier one) puts two tokens where the source has one (C08's R8.8 / R8.9
+    # decided on the lexer's regular expressions, evaluated here under this property's id).
+    from . import c08
+    t148 = "a literal in a value is one token: every reference literal is taken whole by its rule (R8.8 inclusion, R8.9 leftmost-first preference)"
+    run_shared(ctx, c08.run, {"R8.8": ("R14.8", t148), "R8.9": ("R14.8", t148)})
+
 # ---------------------------------------------------------------------------
 
 
